@@ -54,7 +54,12 @@ func VerifC11Sinks() {
 	erp.Processor.SetFailOnFirstErrorInTriggerSequence(true)
 	vs := zzScope()
 	two := zz.Param("SINKS", 1) == 2
-	src := c11Src("s1", "a")
+	src := ""
+	if zz.Param("GLOBALS", 0) == 1 && zz.Bool("globals") {
+		// the declaration scope already holds names the invocation scope defines itself: an invocation still sees its own event
+		src += "event := {\"name\": \"g\", \"kind\": \"g\", \"state\": {\"id\": \"glob\", \"fail\": false}}\n"
+	}
+	src += c11Src("s1", "a")
 	if two {
 		src += c11Src("s2", "b")
 	}
@@ -69,7 +74,11 @@ func VerifC11Sinks() {
 		fails[i] = zz.Bool("fail" + ids[i])
 	}
 	zz.ReportHeapRaces()
-	zz.ScheduleEraser(zz.Param("P", 1))
+	if zz.Param("SYNC", 0) == 1 {
+		zz.Schedule(zz.Param("P", 1)) // every sync operation (scope locks included) is a pre-emption point
+	} else {
+		zz.ScheduleEraser(zz.Param("P", 1))
+	}
 	proc.Start()
 	for i := 0; i < n; i++ {
 		kind := "a"
